@@ -221,4 +221,16 @@ theorem cola_quarter (k : Kind) (hk : k = .hann ∨ k = .hamming ∨ k = .blackm
     periodic_getD k a _ _ (by omega)]
   simp
 
+theorem periodic_rect_reverse (a : ℝ) (size : ℕ) : (periodic .rect a size).reverse = periodic .rect a size := by
+  apply List.ext_getElem (by simp)
+  intro i h1 h2
+  rw [List.getElem_reverse]
+  simp [periodic, sample]
+
+theorem symmetric_rect (a : ℝ) (size : ℕ) : symmetric .rect a size = periodic .rect a size := by
+  unfold symmetric
+  split
+  · next h => subst h; simp [periodic, sample]
+  · simp [periodic, sample]
+
 end ALV.C14
